@@ -126,19 +126,14 @@ impl FileSystem {
     /// TODO Reject relative path
     pub fn get<P: AsRef<Path>>(&self, path: P) -> Result<Rc<RefCell<Inode>>, Errno> {
         fn main(fs: &FileSystem, path: &Path) -> Result<Rc<RefCell<Inode>>, Errno> {
-            let components = path.components();
+            // The path is split by hand rather than with `Path::components`
+            // because the latter drops `.` components, which can only be
+            // resolved in a directory.
             let mut nodes = vec![Rc::clone(&fs.root)];
-            for component in components {
-                let name = match component {
-                    Component::Normal(name) => name,
-                    Component::RootDir | Component::CurDir => continue,
-                    Component::ParentDir => {
-                        if nodes.len() > 1 {
-                            nodes.pop();
-                        }
-                        continue;
-                    }
-                };
+            for name in path.as_unix_str().as_bytes().split(|&b| b == b'/') {
+                if name.is_empty() {
+                    continue;
+                }
 
                 let node_ref = nodes.last().unwrap().borrow();
                 let children = match &node_ref.body {
@@ -146,11 +141,27 @@ impl FileSystem {
                     _ => return Err(Errno::ENOTDIR),
                 };
 
+                match name {
+                    b"." => continue,
+                    b".." => {
+                        drop(node_ref);
+                        if nodes.len() > 1 {
+                            nodes.pop();
+                        }
+                        continue;
+                    }
+                    _ => {}
+                }
+
                 if !node_ref.permissions.contains(Mode::USER_EXEC) {
                     return Err(Errno::EACCES);
                 }
 
-                let child = Rc::clone(children.get(name).ok_or(Errno::ENOENT)?);
+                let child = Rc::clone(
+                    children
+                        .get(UnixStr::from_bytes(name))
+                        .ok_or(Errno::ENOENT)?,
+                );
                 drop(node_ref);
                 nodes.push(child);
             }
@@ -370,6 +381,20 @@ mod tests {
         let fs = FileSystem::default();
         let result = fs.get("/");
         assert_eq!(result, Ok(fs.root));
+    }
+
+    #[test]
+    fn file_system_get_dot_and_dot_dot_need_a_directory() {
+        let mut fs = FileSystem::default();
+        let file = Rc::new(RefCell::new(Inode::new([1])));
+        fs.save("/dir/file", Rc::clone(&file)).unwrap();
+
+        assert_eq!(fs.get("/dir/."), fs.get("/dir"));
+        assert_eq!(fs.get("/dir/./file"), Ok(Rc::clone(&file)));
+        assert_eq!(fs.get("/dir/../dir/file"), Ok(file));
+        assert_eq!(fs.get("/dir/file/."), Err(Errno::ENOTDIR));
+        assert_eq!(fs.get("/dir/file/.."), Err(Errno::ENOTDIR));
+        assert_eq!(fs.get("/dir/file/../file"), Err(Errno::ENOTDIR));
     }
 
     #[test]
